@@ -889,10 +889,17 @@ async fn panicking_sibling() -> (Option<bool>, Option<f64>, Option<f64>, Option<
 async fn sigint_family(cli: &Cli, report: &mut Report) {
     // SIGINT (ctrl-c, `kill -INT`) and SIGTERM (`docker stop`, Kubernetes, systemd, plain `kill`) both
     // ask the application to shut down
-    let rounds = cli.scaled(if cli.tier == Tier::Thorough { 4 } else { 2 });
+    // (and a signal that is repeated while the drain is under way - a supervisor that asks twice, a
+    // wrapper that forwards it again: the request was heard the first time, the drain goes on)
+    let rounds = cli.scaled(if cli.tier == Tier::Thorough { 8 } else { 4 });
     let mut all = vec![];
     for round in 0..rounds {
-        let (signame, sig) = if round % 2 == 0 { ("sigint", "-INT") } else { ("sigterm", "-TERM") };
+        let (signame, sig, again): (&str, &str, Option<&str>) = match round % 4 {
+            0 => ("sigint", "-INT", None),
+            1 => ("sigterm", "-TERM", None),
+            2 => ("sigint-then-sigterm", "-INT", Some("-TERM")),
+            _ => ("sigterm-twice", "-TERM", Some("-TERM")),
+        };
         let port = crate::tcp::free_port();
         let addr: SocketAddr = format!("127.0.0.1:{port}").parse().expect("addr");
         let timeout_s = 2u64;
@@ -925,7 +932,12 @@ async fn sigint_family(cli: &Cli, report: &mut Report) {
         let killer = tokio::spawn(async move {
             tokio::time::sleep(Duration::from_millis(350)).await;
             let _ = std::process::Command::new("kill").args([sig, &pid.to_string()]).status();
-            Instant::now()
+            let at = Instant::now();
+            if let Some(second) = again {
+                tokio::time::sleep(Duration::from_millis(200)).await;
+                let _ = std::process::Command::new("kill").args([second, &pid.to_string()]).status();
+            }
+            at
         });
         let status_log = match &status {
             Some(s) => Some(Client::new(s, status_plan).run().await),
